@@ -25,8 +25,8 @@ V3 = (0.0, 1.0, 2.0)
 ALPHA = {
     "V3x2F": [(a, b, f) for a in V3 for b in V3 for f in (False, True)],
     "B3": [(a, b, c, True) for a in (0.0, 1.0) for b in (0.0, 1.0) for c in (0.0, 1.0)],
-    # costs differing by 1e-10: mutually non-dominated near-ties are distinct members, near-dominated ones are evicted
-    "NEAR": [(a, b, True) for a in (1.0, 1.0 + 1e-10, 1.0 - 1e-10) for b in (2.0, 2.0 + 1e-10, 2.0 - 1e-10)],
+    # costs differing by 1e-10, 1e-11 and one ulp: mutually non-dominated near-ties are distinct members, near-dominated ones are evicted
+    "NEAR": [(a, b, True) for a in (1.0, 1.0 + 1e-11, 1.0 - 1e-10) for b in (2.0, 2.0 + 4.440892098500626e-16, 2.0 - 1e-11)],
     # thorough only
     "V4x2": [(a, b, True) for a in (0.0, 1.0, 2.0, 3.0) for b in (0.0, 1.0, 2.0, 3.0)],
     "B3F": [(a, b, c, f) for a in (0.0, 1.0) for b in (0.0, 1.0) for c in (0.0, 1.0) for f in (False, True)],
@@ -40,6 +40,8 @@ COMPARATORS = {"pareto": None, "eps01": [0.1, 0.1], "eps05": 0.5}
 def make_archive(cname):
     from artap.archive import Archive
     from artap.operators import ParetoDominance, EpsilonDominance
+    if cname == "default":
+        return Archive()             # the default comparator object is shared by all default archives of the process
     eps = COMPARATORS[cname]
     return Archive(dominance=ParetoDominance() if eps is None else EpsilonDominance(eps))
 
@@ -229,6 +231,19 @@ def _shard(shard, col: Collector):
                         for key, msg in check_truncate(cname, st, feats, size, larger):
                             col.violation(key, "truncate", msg, {"comparator": cname, "state": st, "feats": feats,
                                                                  "size": size, "larger": larger})
+    elif kind == "default":
+        # default archives in one process: histories over 2 objectives first, then over 3 (and, in another process, 3 then 1/2)
+        order = shard[1]
+        for aname in order:
+            alpha = ALPHA[aname]
+            for seq in itertools.product(alpha[::2] if len(alpha) > 10 else alpha, repeat=3):
+                col.case()
+                col.count("default_archive_histories")
+                if len(set(seq)) > 1:
+                    col.nontrivial(("default", aname, seq))
+                for key, msg in check_history("default", list(seq)):
+                    col.violation(key + ":after-other-objective-counts", "hist", msg, {"comparator": "default", "seq": seq})
+        col.sample({"kind": "default archives, objective counts in the order", "alphabets": list(order)}, 1)
     elif kind == "two":
         _, c1, c2, aname, first = shard
         alpha = ALPHA[aname]
@@ -280,6 +295,7 @@ def run(tier, seed):
             for first in ALPHA[aname]:
                 for k in range(2, n + 1):
                     shards.append(("hist", cname, aname, k, first))
+    shards += [("default", ("V3x2F", "B3")), ("default", ("B3", "V3x2F")), ("default", ("NEAR", "T3"))]
     for c1, c2 in (("pareto", "pareto"), ("pareto", "eps01"), ("eps01", "eps05"), ("eps05", "pareto")):
         for aname in ("V3x2F", "B3"):
             for first in ALPHA[aname][::3]:
